@@ -19,7 +19,7 @@ var layouts = []string{"contig", "lazyT", "sliced", "stepped", "mat"}
 // variable index of the operand. nv is the next free variable index.
 func (g *gen) operand(steps *[]string, nv *int, dt string, sh []int, layout string) int {
 	add := func(s string) { *steps = append(*steps, s) }
-	if size(sh) == 1 {
+	if size(sh) == 1 && !strings.HasPrefix(layout, "col") {
 		layout = "contig" // one-cell views become scalars (finding F25); keep them out of this matrix
 	}
 	switch layout {
@@ -85,6 +85,25 @@ func (g *gen) operand(steps *[]string, nv *int, dt string, sh []int, layout stri
 		add(fmt.Sprintf("new %s %s Fraw", dt, ints(sh)))
 		v := *nv
 		*nv++
+		return v
+	case "colconv":
+		add(fmt.Sprintf("new %s %s Fconv", dt, ints(sh)))
+		v := *nv
+		*nv++
+		return v
+	case "colT": // lazily transposed column-major tensor
+		if len(sh) < 2 {
+			break
+		}
+		p := g.randPerm(len(sh))
+		src := make([]int, len(sh))
+		for i, a := range p {
+			src[a] = sh[i]
+		}
+		add(fmt.Sprintf("new %s %s Fraw", dt, ints(src)))
+		v := *nv
+		*nv++
+		add(fmt.Sprintf("T $%d %s", v, ints(p)))
 		return v
 	}
 	add(fmt.Sprintf("new %s %s C", dt, ints(sh)))
